@@ -133,7 +133,8 @@ public:
   }
 
   bool operator==(const discrete_domain_t &other) const {
-    return (m_is_top && other.m_is_top) || (m_set == other.m_set);
+    return (m_is_top && other.m_is_top) ||
+           (!m_is_top && !other.m_is_top && m_set == other.m_set);
   }
 
   void operator|=(const discrete_domain_t &other) { *this = *this | other; }
@@ -363,7 +364,8 @@ public:
   }
 
   bool operator==(const set_domain_t &other) const {
-    return (m_is_top && other.m_is_top) || (m_set == other.m_set);
+    return (m_is_top && other.m_is_top) ||
+           (!m_is_top && !other.m_is_top && m_set == other.m_set);
   }
 
   void operator|=(const set_domain_t &other) {
